@@ -278,7 +278,11 @@ class Interp:
                 cands.append(self.repo.modules[modname].classes[cn])
         for c in cands:
             if any((dotted(b) or "").split(".")[-1] in ("Enum", "IntEnum") for b in c.bases):
-                return _EnumCls(c.name)
+                ec = _EnumCls(c.name)
+                for mod_ in self.repo.modules.values():
+                    if mod_.classes.get(c.name) is c:
+                        ec.module = mod_
+                return ec
         return None
 
     # ---- method lookup ----------------------------------------------------------------------
@@ -757,6 +761,9 @@ class Interp:
             if base is dict and e.attr == "fromkeys":
                 return _PyCall(lambda it, v=None: dict.fromkeys(self.iterate(it), v))
             if isinstance(base, _EnumCls):
+                meth = getattr(base, "module", None) and base.module.funcs.get(f"{base.name}.{e.attr}")
+                if meth:
+                    return _PyCall(lambda *a, _m=meth, _b=base: self.call_f(_m, [_b] + list(a)))
                 return f"{base.name}.{e.attr}"
             if isinstance(base, _ModRef):
                 if e.attr in base.mod.funcs:
@@ -1179,6 +1186,8 @@ class _Record:
 
 
 class _EnumCls:
+    module = None
+
     def __init__(self, name):
         self.name = name
 
